@@ -37,7 +37,7 @@ ASSUMPTIONS = [
     "[EAM-ADP-Dipole]/[EAM-ADP-Quadrupole] entries are not 'pair, embedding and density entries' and stay in the "
     "hand-edited file",
 ]
-REQUIRED = {"hyphenated_label:named_by_filter": 2, "fs:species_in_density_keys_only": 3, "mode:include": 40, "mode:exclude": 40, "kind:pair": 20, "kind:eam": 15, "kind:fs": 15, "kind:adp": 5,
+REQUIRED = {"eam:species_with_density_entry_only:named_by_filter": 4, "hyphenated_label:named_by_filter": 2, "fs:species_in_density_keys_only": 3, "mode:include": 40, "mode:exclude": 40, "kind:pair": 20, "kind:eam": 15, "kind:fs": 15, "kind:adp": 5,
             "removes_and_keeps": 50, "views>=2": 40, "views_tabulated": 25, "unknown_label": 15, "empty_include": 5,
             "route:main": 25, "only_unknown_labels:include:command_line_glue": 2, "only_unknown_labels:exclude:command_line_glue": 2}
 
@@ -96,7 +96,17 @@ def _case(draw, targets=None, shape=None, mode=None, density_only=False, hyphen=
     if hyphen:
         _hyphenate(m, draw(st.sampled_from(m["elements"])), draw(st.sampled_from(["O2-", "Zr-hcp", "Fe3-x"])))
     sp = m["species"] if m["kind"] == "pair" else m["elements"]
-    if density_only:
+    if density_only and "density_fs" not in m:
+        # a standard EAM model in which one species has an [EAM-Density] entry ONLY (no embedding function, no pair
+        # interaction: both are zero-filled), and the filter names that species
+        with_embed = [a for a, _ in m["embed"]]
+        x = draw(st.sampled_from([e for e in m["elements"] if e != with_embed[0]] or m["elements"][1:]))
+        m["embed"] = [e for e in m["embed"] if e[0] != x]
+        m["pair"] = [e for e in m["pair"] if x not in (e[0], e[1])]
+        if not any(e[0] == x for e in m["density"]):
+            m["density"].append([x, {"ranges": [{"m": None, "s": None, "body": {"k": "form", "name": "polynomial", "p": [0, 0.5]}}]}])
+        m["density_only_species"] = x
+    elif density_only:
         # a Finnis-Sinclair model in which one species is mentioned by 'A->B' density keys ONLY (no embedding
         # function, no pair interaction: both are zero-filled): its density entries are entries like any other
         with_embed = [a for a, _ in m["embed"]]
@@ -107,6 +117,8 @@ def _case(draw, targets=None, shape=None, mode=None, density_only=False, hyphen=
             m["density_fs"].append([with_embed[0], x, {"ranges": [{"m": None, "s": None, "body": {"k": "form", "name": "polynomial", "p": [0, 0.5]}}]}])
         m["density_only_species"] = x
     flt = draw(_filter(sp, shape, mode))
+    if density_only and "density_fs" not in m and m["density_only_species"] not in flt["species"]:
+        flt["species"] = [m["density_only_species"]] + [x_ for x_ in flt["species"] if len(flt["species"]) < len(sp) - 1 or x_ != flt["species"][0]]
     others = draw(st.lists(_filter(sp), min_size=0, max_size=3))
     order = draw(st.permutations(list(range(len(others) + 1))))
     return {"model": m, "filter": flt, "others": others, "order": list(order),
@@ -133,6 +145,9 @@ def strata(tier):
     fs = sorted(t for t, k in gen.EAM_TARGETS.items() if k == "fs")
     for mode in ("include", "exclude"):
         out.append(("fs:density_only_species:" + mode, st.one_of(_case(fs, "partial", mode, True), _case(fs, "only_unknown", mode, True)), 4))
+    std = sorted(t for t, k in gen.EAM_TARGETS.items() if k == "eam")
+    for mode in ("include", "exclude"):
+        out.append(("eam:density_only_species:" + mode, _case(std, "partial", mode, True), 3))
     return out
 
 
@@ -190,7 +205,9 @@ def check_case(case):
     cls = ["mode:" + flt["mode"], "kind:" + kind, "target:" + target, "route:" + case["route"]]
     if m.get("hyphenated"):
         cls.append("hyphenated_label:" + ("named_by_filter" if m["hyphenated"] in flt["species"] else "not_named"))
-    if m.get("density_only_species") and m["density_only_species"] not in flt["species"]:
+    if m.get("density_only_species") and "density_fs" not in m:
+        cls.append("eam:species_with_density_entry_only:" + ("named_by_filter" if m["density_only_species"] in flt["species"] else "not_named"))
+    elif m.get("density_only_species") and m["density_only_species"] not in flt["species"]:
         cls.append("fs:species_in_density_keys_only")
     secs = anymodel.sections_of(m)
     text = anymodel.text_of(secs)
